@@ -10,7 +10,7 @@ const UNESCAPE_MD_RE : &str = r##"\\([!"#$%&'()*+,\-./:;<=>?@\[\\\]^_`{|}~])"##;
 const ENTITY_RE      : &str = r##"&([A-Za-z#][A-Za-z0-9]{1,31});"##;
 
 static DIGITAL_ENTITY_TEST_RE : Lazy<Regex> = Lazy::new(||
-    Regex::new(r#"(?i)^&#(x[a-f0-9]{1,8}|[0-9]{1,8})$"#).unwrap()
+    Regex::new(r#"(?i)^&#(x[a-f0-9]{1,6}|[0-9]{1,7});$"#).unwrap()
 );
 static UNESCAPE_ALL_RE        : Lazy<Regex> = Lazy::new(||
     Regex::new(&format!("{UNESCAPE_MD_RE}|{ENTITY_RE}")).unwrap()
@@ -67,17 +67,18 @@ pub fn get_entity_from_str(str: &str) -> Option<&'static str> {
 fn replace_entity_pattern(str: &str) -> Option<String> {
     if let Some(entity) = get_entity_from_str(str) {
         Some((*entity).to_owned())
-    } else if DIGITAL_ENTITY_TEST_RE.is_match(str) {
-        let code = if str.starts_with('x') || str.starts_with('X') {
-            u32::from_str_radix(&str[1..], 16).unwrap()
+    } else if let Some(capture) = DIGITAL_ENTITY_TEST_RE.captures(str) {
+        let entity = &capture[1];
+        let code = if entity.starts_with('x') || entity.starts_with('X') {
+            u32::from_str_radix(&entity[1..], 16).unwrap()
         } else {
-            u32::from_str_radix(str, 10).unwrap()
+            u32::from_str_radix(entity, 10).unwrap()
         };
 
         if is_valid_entity_code(code) {
             Some(char::from_u32(code).unwrap().into())
         } else {
-            None
+            Some('\u{FFFD}'.into())
         }
     } else {
         None
